@@ -313,14 +313,19 @@ Section Lists.
       assert (Fl : fst (last l dummy) = d) by (unfold indoc, in_doc in Hlast; apply andb_true_iff in Hlast; destruct Hlast as [H _]; apply Nat.eqb_eq in H; exact H).
       cbv zeta. rewrite Fn, Ff, Fl, !Nat.eqb_refl. unfold isIndexed. rewrite Fn.
       destruct (windexed W d) eqn:Ei; simpl andb; cbv iota.
-      + destruct (binarySearch_spec (fun k => getIndex W (nth k l dummy)) (length l) (getIndex W n)) as (ins & ip & Hb & Hspec).
-        * intros i j Hij Hj. unfold getIndex. pose proof (sorted_nth l i j Hs Hij Hj). lia.
+      + assert (GI : forall m, indoc m -> getIndex W m = S (key W m)).
+        { intros m Hm. unfold getIndex, isIndexed. unfold indoc, in_doc in Hm. apply andb_true_iff in Hm.
+          destruct Hm as [Hm _]. apply Nat.eqb_eq in Hm. rewrite Hm, Ei. reflexivity. }
+        assert (GK : forall k, k < length l -> getIndex W (nth k l dummy) = S (key W (nth k l dummy))).
+        { intros k Hk. apply GI. rewrite Forall_forall in Hl. apply Hl. apply nth_In. assumption. }
+        destruct (binarySearch_spec (fun k => getIndex W (nth k l dummy)) (length l) (getIndex W n)) as (ins & ip & Hb & Hspec).
+        * intros i j Hij Hj. rewrite !GK by lia. pose proof (sorted_nth l i j Hs Hij Hj). lia.
         * unfold l; simpl; lia.
         * rewrite Hb. f_equal. destruct ins.
           -- destruct Hspec as (Hip & Hlo & Hfrom). apply sinsert_at; try assumption.
-             ++ intros k Hk. specialize (Hlo k Hk). unfold getIndex in Hlo. lia.
-             ++ intros k Hk1 Hk2. specialize (Hfrom k Hk1 Hk2). unfold getIndex in Hfrom. lia.
-          -- destruct Hspec as (k & Hk & Hg). unfold getIndex in Hg. symmetry. apply sinsert_dup; [assumption|].
+             ++ intros k Hk. specialize (Hlo k Hk). cbv beta in Hlo. rewrite GK, GI in Hlo by (assumption || lia). lia.
+             ++ intros k Hk1 Hk2. specialize (Hfrom k Hk1 Hk2). cbv beta in Hfrom. rewrite GK, GI in Hfrom by (assumption || lia). lia.
+          -- destruct Hspec as (k & Hk & Hg). rewrite GK, GI in Hg by assumption. symmetry. apply sinsert_dup; [assumption|].
              assert (Hin : In (nth k l dummy) l) by (apply nth_In; assumption).
              replace n with (nth k l dummy); [assumption|].
              apply key_inj; try assumption; [|lia]. rewrite Forall_forall in Hl. apply Hl. assumption.
@@ -347,7 +352,7 @@ Section Lists.
   Qed.
 
   Theorem add_history : forall ns l, Forall indoc ns -> Forall indoc l -> sorted W l = true ->
-    fold_left (add W) ns (Some l) = Some (sfold ns l).
+    fold_left (add_step W) ns (Some l) = Some (sfold ns l).
   Proof.
     induction ns as [|n ns IH]; intros l Hns Hl Hs; simpl; [reflexivity|].
     inversion Hns; subst. rewrite add_refines by assumption.
